@@ -1362,7 +1362,7 @@ def judge_multi(spec, obs):
                 out.append(("C08:%s:%s" % (hk, key), "%s: begin=%s finish=%s but credentials changed: %s -> %s" % (where, a["begin"], a["finish"], before, after)))
             if after["has_paired"]:
                 if earlier_success:
-                    out.append(("C08:%s:has-paired-after-failed-retry" % hk,
+                    out.append(("C08:%s:has-paired-after-failed-retry:%s" % (hk, a.get("hit_name") or ("before-first-reply" if not a["replies"] else "after-replies")),
                                 "%s: begin=%s (%s) finish=%s (%s) but has_paired is still True from the earlier successful attempt" % (where, a["begin"], a["begin_msg"], a["finish"], a["finish_msg"])))
                 else:
                     out.append(("C08:%s:has-paired-on-failure" % hk, "%s: begin=%s finish=%s but has_paired is True" % (where, a["begin"], a["finish"])))
@@ -1394,9 +1394,9 @@ def multi_specs(handler, names, rng, thorough):
     fails = [f for f in fails if not (f.get("kind") == "error" and f.get("sub") == "2" and names[f["index"]] in ("device-info", "pin-start"))]
     seqs = [[{}, {}], [{}, {}, {}]]
     seqs += [[{}, f] for f in fails]                    # success, then a failing attempt
-    seqs += [[f, {}] for f in fails]                    # failure, then a complete attempt
-    seqs += [[{}, f, {}] for f in fails[:: (1 if thorough else 3)]]
-    seqs += [[f, g] for f in fails[::4] for g in fails[1::5]]
+    seqs += [[f, {}] for f in fails[:: (1 if thorough else 2)]]      # failure, then a complete attempt
+    seqs += [[{}, f, {}] for f in fails[:: (1 if thorough else 4)]]
+    seqs += [[f, g] for f in fails[:: (4 if thorough else 7)] for g in fails[1:: (5 if thorough else 9)]]
     out = []
     for seq in seqs:
         out.append({"handler": handler, "attempts": [dict(a) for a in seq]})
